@@ -15,12 +15,12 @@ META = {
     "C02": {
         "technique": "model-based stateful property testing: differential against an independent reference IAVL+ implementation, metamorphic read interleaving",
         "level_text": "Exploration: every hash the library reports (WorkingHash at drawn points, SaveVersion hash+version, Hash, hash of every retained version after every step, after reopen, prune, rollback-and-redo, export/import hop) is compared with an independent purely-functional implementation of the documented IAVL+ rules. Read-only calls are applied to the real tree only, so any influence of a read on a later hash shows at the next commit. The per-step observer deliberately does not call WorkingHash (it would memoise hashes and mask a poisoning read).",
-        "level_note": _TB + "Open finding F1 (hash poisoned by a proof query on the working tree while InitialVersion is pending) is steered around and counted.",
+        "level_note": _TB + "No open finding restricts this check (F1 - hash poisoned by a proof query while InitialVersion is pending - was repaired; its input is replayed by the replay tier).",
     },
     "C03": {
         "technique": "property-based testing: two-sided oracle (completeness + binding) with the ics23 verifier against reference roots",
         "level_text": "Exploration: for every retained non-empty version and the working tree and every probe key (present; absent below/above/between/prefix/extension) the proof of the right kind must exist, carry the model's value / the model's neighbours and verify with ics23.IavlSpec against the REFERENCE root; it must fail for another value, another key, the opposite claim and the reference root of any other retained version where the claim is false; wrong-kind requests must error.",
-        "level_note": _TB + "Also trusted: ics23/go v0.11.0 verifier. Keys whose stored value is empty cannot be verified by ics23 by construction (LeafOp.Apply rejects empty values) and are counted, not checked. Working-tree proofs with a pending non-default InitialVersion are excluded while F1 is open.",
+        "level_note": _TB + "Also trusted: ics23/go v0.11.0 verifier. Keys whose stored value is empty cannot be verified by ics23 by construction (LeafOp.Apply rejects empty values) and are counted, not checked. The tree's own VerifyMembership / VerifyNonMembership / VerifyProof helpers are checked on committed versions only.",
     },
     "C04": {
         "technique": "model-based stateful property testing with a pruning-biased generator; re-check through a fresh handle",
@@ -30,7 +30,7 @@ META = {
     "C07": {
         "technique": "differential property testing of two read paths (fast index vs tree walk) plus independent raw-index audit",
         "level_text": "Exploration: every (re)open re-draws fast index on/off and the version to load; after every step Get/GetWithIndex, Iterator/IterateRange, GetVersioned/GetImmutable.GetWithIndex are compared with each other and with the model, and whenever the live handle has the index enabled the raw f-entries (decoded by an independent decoder) must equal the model's latest map exactly with label 1.1.0-<latest>.",
-        "level_note": _TB + "Open finding F3 (rollback with the index disabled defeats the label) is steered around and counted.",
+        "level_note": _TB + "No open finding restricts this check (F2, F3 repaired; replayed by the replay tier). Also checked: a handle used without Load, and the stamps of the persisted index entries against the version that wrote the value.",
     },
     "C12": {
         "technique": "model-based stateful property testing with a raw-storage reachability audit by an independent decoder",
@@ -55,7 +55,7 @@ META = {
     "C09": {
         "technique": "differential stateful property testing against a never-diverged twin tree (plus reference model), raw-store comparison",
         "level_text": "Exploration: after a rollback to v (LoadVersionForOverwriting or DeleteVersionsFrom + reload, repeated/nested/after pruning) a twin tree on a fresh store is rebuilt from the surviving history only; every further op goes to both and after each step reads, hashes, AvailableVersions and the raw stores (node entries byte-identical up to the (v,0)/(v,1) spelling of a reference to a re-keyed root, fast entries keys+values, label) are compared, so nothing of the erased versions can leak through caches, counters or the index.",
-        "level_note": _TB + "Open finding F3 is steered around (rollback with the index disabled while a label exists).",
+        "level_note": _TB + "No open finding restricts this check (F3, F4 repaired; replayed by the replay tier).",
     },
     "C15": {
         "technique": "model-based property testing: change sets predicted from the op log, metamorphic replay through SaveChangeSet",
@@ -79,8 +79,8 @@ META = {
     },
     "C05": {
         "technique": "fault enumeration inside generated histories: every crash cut of the journal of one generated operation, recovered and compared with the model",
-        "level_text": "Fault enumeration: for each generated history the storage seam records the physical writes of one operation (commit, deletion of old versions, rollback, import commit, fast-index build) and EVERY boundary between them is turned into a crash image that is reopened with the index on and off, compared with the model's before/after state on all read paths, and on which the operation is repeated. Exhaustive per history, sampled across histories (thousands of cuts per quick run).",
-        "level_note": _TB + "Assumes atomic ordered batch writes (as the property states). Open finding F7: at cuts strictly inside a split SaveVersion / LoadVersionForOverwriting / DeleteVersionsTo the known symptoms are tolerated and counted, but every version the operation was not touching must still be fully readable; cuts 0 and |J|, import and index-build cuts are checked in full. F18 (multi-batch import) likewise.",
+        "level_text": "Fault enumeration: for each generated history the storage seam records the physical writes of one operation (commit, deletion of old versions, rollback, import commit, fast-index build) and EVERY boundary between them is turned into a crash image that is reopened three ways (index on, index off, and - index on - at an OLDER version first), compared with the model's before/after state on all read paths, and on which the operation is repeated. Exhaustive per history, sampled across histories (thousands of cuts per quick run).",
+        "level_note": _TB + "Assumes atomic ordered batch writes (as the property states). Open finding F7: at cuts strictly inside a SaveVersion / LoadVersionForOverwriting / DeleteVersionsTo that the flush threshold produced (not at the operation's own write boundaries, which are found by running it once more with the default threshold) the known symptoms are tolerated and counted, but every version the operation was not touching must still be fully readable; cuts 0 and |J|, import and index-build cuts are checked in full. F18 (multi-batch import) likewise.",
     },
     "C17": {
         "technique": "fault enumeration inside generated histories: every storage-call position of one generated public call is failed once; differential against the fault-free result",
@@ -107,6 +107,6 @@ META = {
         "engine": "harness_v2",
         "technique": "round-trip property testing of persistence: close / reopen / LoadVersion of every retained target, continuation, pruning, snapshots, against the reference",
         "level_text": "Exploration: after closing, every retained version is reloaded (checkpoint read + change-log replay) and compared with the reference hash and the model contents; the history is continued from the reloaded latest version; pruning mid-history must keep the latest version and everything from the last checkpoint not after n loadable; snapshots (table written by SaveSnapshot, and pre-/post-order node streams ingested into a fresh database) must import to the version's hash and contents.",
-        "level_note": _TB + "Open finding F14 (leaves that stay in memory after a replayed load have no value) : value and existence checks are skipped and counted for replayed targets with HeightFilter=0 or a single-leaf tree; hashes, sizes and key order are still checked there. Background pruning is given time, not awaited: only what must survive is asserted.",
+        "level_note": _TB + "F14 (leaves that stay in memory after a replayed load had no value) was repaired; values are checked for every target. The harness waits for v2's background prune passes (reported through the logger) before Close and takes no snapshot after DeleteVersionsTo (v2 exits the process otherwise); with CheckpointMemory the checkpoint positions are not known to the harness, so that option is never combined with pruning.",
     },
 }
